@@ -269,6 +269,9 @@ K0 = z3.Int("c15_leading_comments")  # ghost: number of leading COMMENT tokens o
 
 def register_core(R):
     REJ = {k: v for k, v in REJECT.items() if k != "TypeError"}
+    # the descent recurses once per nesting level: CPython may stop it with RecursionError (never raised by the interpreted
+    # code itself; listed so that CALLERS of these functions have to cope with a non-ValueError exception)
+    REJ["RecursionError"] = ("RecursionError", MAY)
 
     # ---------------------------------------------------------- _parse_subtree
     def level(o):
@@ -370,7 +373,150 @@ def register_core(R):
           loops={0: dict(invariant=[WF, FRAME, TIP_KEPT, ("inside-the-outer-brackets", parse_inv), ("root-is-the-fresh-ROOT", root_inv)])},
           notes="a document that ends before the final ')' cannot make _parse return normally: the normal exit needs a ')' token INSIDE the stream at depth 1")
 
+    # ------------------------------------------------------------------- parse
+    R.add(P + "parse", prop="C15", setup=lambda S: dict(self=parser_obj(S)),
+          requires=[WF, ("called-on-a-fresh-parser", lambda E, v, o: cur(v) == 0)], lemmas=[k0_def],
+          raises={"ValueError": ("every-failure-surfaces-as-ValueError", MAY)},
+          ensures=[WF, FRAME,
+                   ("returns-only-for-a-complete-document", parse_done),
+                   ("result-is-a-fresh-ROOT-and-all-new-nodes-hang-below-it", parse_root)],
+          notes="_parse is used through its contract; the traceback that the handler trims is modelled as a chain of 3 frames with unknown "
+                "function names (pyvc/ext_C15.py) -- the traceback plays no role in the property")
+
+
+# ===========================================================================
+# Part 2: from_ast.<locals>.walk_ast on fixed-shape ASTs (real ASTNode objects, symbolic point values)
+WALK = f"{ASC}:NeurolucidaAscToSwc.from_ast.<locals>.walk_ast"
+COLS7 = ("id", "type", "x", "y", "z", "r", "pid")
+
+# shape language: ("ROOT", kids) | ("TREE", label, kids) | ("NODE", kids) | ("COLOR",) | ("COMMENT",)
+SHAPES = {
+    "chain-of-3-points": ("ROOT", [("TREE", "AXON", [("NODE", [("NODE", [("NODE", [])])])])]),
+    "point-with-two-children": ("ROOT", [("TREE", "DENDRITE", [("NODE", [("NODE", []), ("NODE", [])])])]),
+    "colour-sibling-and-markers": ("ROOT", [("COLOR",), ("TREE", "AXON", [("COMMENT",), ("NODE", [("COLOR",), ("NODE", []), ("COMMENT",)])])]),
+    "split-of-2-after-2-points": ("ROOT", [("TREE", "AXON", [("NODE", [("NODE", [("NODE", [("NODE", [])]), ("NODE", [])])])])]),
+    "two-trees-and-nesting": ("ROOT", [("TREE", "AXON", [("NODE", [("TREE", "DENDRITE", [("NODE", [])]), ("NODE", [])])]), ("NODE", []),
+                                       ("TREE", "DENDRITE", [("NODE", [])])]),
+}
+
+
+def reference_rows(shape):
+    """Independent reference (recursive, from the property statement): points in document (pre-)order; parent = nearest
+    enclosing point, type = label of the nearest enclosing tree.  Returns [(point_no, parent_point_no | None, label | None)]."""
+    rows = []
+
+    def go(n, parent, label):
+        if n[0] == "NODE":
+            k = len(rows)
+            rows.append((k, parent, label))
+            for ch in n[1]:
+                go(ch, k, label)
+        elif n[0] == "TREE":
+            for ch in n[2]:
+                go(ch, None, n[1])  # the AST parent of these points is the TREE, not a point
+        elif n[0] == "ROOT":
+            for ch in n[1]:
+                go(ch, None, label)
+
+    go(shape, None, None)
+    return rows
+
+
+def walk_setup(shape):
+    def f(S):
+        from pyvc.values import PDict, PList
+        from swcgeom.core.swc_utils import get_names, get_types
+        from swcgeom.transforms.neurolucida_asc import ASTNode, ASTType
+
+        pts = []
+
+        def mk(n):
+            kind = n[0]
+            kids = n[-1] if kind in ("ROOT", "TREE", "NODE") else []
+            value = None
+            if kind == "TREE":
+                value = n[1]
+            elif kind == "NODE":
+                k = len(pts)
+                value = tuple(S.real(f"p{k}_{c}") for c in "xyzr")
+                pts.append(value)
+            elif kind == "COLOR":
+                value = ("Red",)
+            elif kind == "COMMENT":
+                value = ("a comment",)
+            ch = PList([mk(c) for c in kids])
+            ch.frozen = True
+            o = S.obj(ASTNode, type=ASTType[kind], value=value, tokens=PList([]), children=ch, parent=None)
+            o.frozen = True
+            return o
+
+        root = mk(shape)
+        names, types = get_names(), get_types()
+        s0 = S.int("first_free_id")
+        kinds = dict(id="int", type="int", x="real", y="real", z="real", r="real", pid="int")
+        before = {c: (S.int if kinds[c] == "int" else S.real)(f"row0_{c}") for c in COLS7}
+        ndata = PDict({getattr(names, c): PList([before[c]]) for c in COLS7})
+        clo = dict(next_id=s0, typee=PList([types.undefined]), ndata=ndata, names=names, types=types)
+        # the function's own name is visible in its defining scope (so that a recursive version would run, and be reported
+        # by the call-graph obligation rather than by a NameError)
+        import swcgeom.transforms.neurolucida_asc as _m
+        from pyvc import extract
+        from pyvc.engine import Frame
+        from pyvc.values import Func
+
+        clo["walk_ast"] = Func(extract.find(WALK)[0], Frame(vars=clo, globs=_m.__dict__), _m.__dict__, WALK)
+        return dict(root=root, pid=S.int("pid"), __closure__=clo,
+                    __ghost__=dict(clo=clo, pts=pts, before=before, s0=s0, shape=shape, names=names, types=types))
+
+    return f
+
+
+def register_walk(R):
+    def rows_ok(E, v, o):
+        from swcgeom.core.swc_utils import get_types
+
+        g = E.spec_extra
+        clo, pts, s0, names, types = g["clo"], g["pts"], g["s0"], g["names"], g["types"]
+        ref = reference_rows(g["shape"])
+        tcode = {"AXON": types.axon, "DENDRITE": types.basal_dendrite, None: types.undefined}
+        conj = [to_z3(clo["next_id"], "int") == s0.z + len(ref)]
+        cols = {c: clo["ndata"].items[getattr(names, c)] for c in COLS7}
+        for c in COLS7:
+            if cols[c].items is None or len(cols[c].items) != 1 + len(ref):
+                return False  # not exactly one row per point
+            k = "int" if c in ("id", "type", "pid") else "real"
+            conj.append(to_z3(cols[c].items[0], k) == to_z3(g["before"][c], k))  # earlier rows untouched
+        for k, par, lab in ref:
+            row = {c: cols[c].items[1 + k] for c in COLS7}
+            conj.append(to_z3(row["id"], "int") == s0.z + k)
+            conj.append(to_z3(row["pid"], "int") == (z3.IntVal(-1) if par is None else s0.z + par))
+            conj.append(to_z3(row["type"], "int") == tcode[lab])
+            for c, val in zip("xyzr", pts[k]):
+                conj.append(to_z3(row[c], "real") == val.z)
+        return z3.And(*conj)
+
+    def type_stack_balanced(E, v, o):
+        t = E.spec_extra["clo"]["typee"]
+        return t.items is not None and len(t.items) == 1 and t.items[0] == E.spec_extra["types"].undefined
+
+    def no_recursion(E, v, o):
+        import ast as _ast
+
+        from pyvc import extract
+
+        node, _, _ = extract.find(WALK)
+        return not any(isinstance(x, _ast.Call) and isinstance(x.func, _ast.Name) and x.func.id == "walk_ast" for x in _ast.walk(node))
+
+    R.add(WALK, prop="C15", variants={k: walk_setup(sh) for k, sh in SHAPES.items()},
+          ensures=[("one-row-per-point-in-document-order-with-parent-type-and-values", rows_ok),
+                   ("type-stack-restored", type_stack_balanced),
+                   ("call-graph/walk_ast-does-not-call-itself", no_recursion)],
+          notes="BOUNDED SHAPES: five fixed AST shapes (chain of 3, fork, markers, split after a run, nested/sibling trees) with fully symbolic "
+                "point values, first free id and one pre-existing row; expected rows come from an independent recursive reference in this file. "
+                "The AST objects are frozen: any write to them is a failed frame obligation.")
+
 
 def register(R):
     register_leaves(R)
     register_core(R)
+    register_walk(R)
